@@ -9,6 +9,8 @@ import NxModel.DriverUtil
   full <hex datagram> <extract> <user>          -> <hres> => <reaction>
   sbegin                                        -> ok     a new connection (request sequence) starts
   sreq <hex datagram> <extract> <user>          -> <hres> => <reaction> | dead    its next request, through `serveStep` (= `serve`)
+  inv <hex datagram> <extract>                  -> nosrv | <protocol>:<method id>:<- | id>   which server's handle() is entered, with which
+                                                   method id, and the table id of the user method that then runs (`dispatch`)
   rchk <where> <slot> <val>                     -> ok | <type(e).__name__>   what writing <val> at a position declared <slot> raises
   rinc <slot> <val>                             -> - | type | other           the property's "wrongly typed" relation (`incompat`)
   hres    = ret:<hex> | <exc>          exc = rmc:<int> | type | index | memory | key | other | base
@@ -165,10 +167,6 @@ def parseUser (s : String) : Option User :=
 def parseExtract (s : String) : Option (Option Exc) :=
   if s = "ok" then some none else (parseExc s).map some
 
-def findServer (p : Nat) : List Server → Option Server
-  | [] => none
-  | s :: r => if s.protocol = p then some s else findServer p r
-
 structure D where
   tbl : List Server
   alive : Bool
@@ -190,6 +188,17 @@ def stepTbl (tbl : List Server) (line : String) : List Server × String :=
   | ["rinc", sl, v] =>
     match parseSlot sl, parseVal v with
     | some sl, some v => (tbl, match incompat sl v with | none => "-" | some e => showExc e)
+    | _, _ => (tbl, "bad-op")
+  | ["inv", h, ex] =>
+    match fromHex h, parseExtract ex with
+    | some d, some ex =>
+      match decode d with
+      | .error e => (tbl, "crash " ++ e.name)
+      | .ok m =>
+        if m.mode ≠ 0 then (tbl, "notreq") else
+        match dispatch tbl m ex with
+        | none => (tbl, "nosrv")
+        | some (p, mid, u) => (tbl, s!"{p}:{mid}:" ++ (match u with | none => "-" | some k => toString k))
     | _, _ => (tbl, "bad-op")
   | ["react", h, r] =>
     match fromHex h, parseHres r with
